@@ -100,6 +100,7 @@ NAMED["Nodes"] = Sl(Ptr(Nm("Node")))
 NAMED["NodeMap"] = Mp(Nm("Node"))
 NAMED["NodePtr"] = Ptr(Nm("Node"))
 NAMED["Pair"] = Arr(2, Nm("Node"))
+NAMED["MapClash"] = St(F("c17nodemap", P("string")), ET("NodeMap"))
 WIDE_LEAVES = ("dur", "num", "any", "bytes")
 
 
@@ -822,6 +823,8 @@ class Gen:
             env = {"C17_A": rng.choice(ENV_VALUES)}
             if rng.random() < 0.7:
                 env["C17_B"] = rng.choice(ENV_VALUES)
+            if '"k": "$C17_A"' in json.dumps(doc) and env["C17_A"] == "":
+                env["C17_A"] = "w"      # an unquoted YAML key must not expand to the empty text (no longer a key)
             c["env"] = env
             ks = rng.sample(PROP_KEYS, rng.randint(1, 4))
             c["props"] = [[k, rng.choice(PROP_VALUES)] for k in ks]
@@ -1382,6 +1385,22 @@ class C17(Property):
             cs.append({"kind": "shape", "type": [F("Timeout", P("dur")), F("Idle", Ptr(P("dur")), O(opt=True))], "env": None,
                        "noload": False, "doc": dm(("Timeout", di(1000)), ("Idle", ds("1m"))),
                        "doc2": dm(("TIMEOUT", di(1000)), ("idle", ds("1m")))})
+        # anonymous fields of declared scalar / map types; a key claimed twice (conflict error for every document);
+        # two struct-typed fields under one canonical key, one of them promoted from an embedded struct (merged)
+        cs.append({"kind": "shape", "type": [ET("MyInt"), F("svcName", P("string"), O(opt=True))], "env": None, "noload": False,
+                   "doc": dm(("C17MyInt", di(7)), ("svcName", ds("x"))), "doc2": dm(("c17myint", di(7)), ("SVCNAME", ds("x")))})
+        cs.append({"kind": "shape", "type": [ET("NodeMap")], "env": None, "noload": False,
+                   "doc": dm(("C17NodeMap", dm(("Host", node("Host", "maxConn"))))),
+                   "doc2": dm(("c17NODEmap", dm(("Host", node("HOST", "MAXconn")))))})
+        cs.append({"kind": "shape", "type": [E([], name="MapClash"), F("svcName", P("string"), O(opt=True))], "env": None,
+                   "noload": False, "doc": dm(("c17nodemap", ds("x"))), "doc2": None})
+        cs.append({"kind": "shape", "type": [F("C17MyStr", Mp(P("int"))), ET("MyStr")], "env": None, "noload": False,
+                   "doc": dm(("C17MyStr", ds("x"))), "doc2": None})
+        cs.append({"kind": "load", "type": [E([F("DB", St(F("Host", P("string"))))]), F("db", St(F("Port", P("int"))))], "env": None,
+                   "doc": dm(("DB", dm(("Host", ds("h")), ("PORT", di(1))))), "doc2": dm(("Db", dm(("HOST", ds("h")), ("port", di(1)))))})
+        if fix_landed(FIX_ANON):
+            cs.append({"kind": "shape", "type": [F("c17nodes", P("int")), ET("Nodes")], "env": None, "noload": False,
+                       "doc": dm(("c17nodes", di(1))), "doc2": None})
         if fix_landed(FIX_MBOOL):
             cs.append({"kind": "shape", "type": [F("Flags", Mp(Nm("MyBool"))), F("Names", Mp(Nm("MyStr")), O(opt=True))], "env": None,
                        "noload": False, "doc": dm(("Flags", dm(("Kk", db(True)))), ("Names", dm(("a", ds("x"))))),
